@@ -335,14 +335,15 @@ fn live_pair() -> Result<LivePair, String> {
     let (a, b) = UnixStream::pair().map_err(|e| e.to_string())?;
     let srv = std::thread::spawn(move || {
         zbus::block_on(async move {
-            let conn = zbus::connection::Builder::unix_stream(b)
+            // The interfaces go on the builder: an object server that is created on demand after
+            // `build()` can lose a call that arrives before its dispatch task was first polled
+            // (that is C30's subject and would show up here as a sporadic hang).
+            let builder = zbus::connection::Builder::unix_stream(b)
                 .server(GUID)
                 .map_err(|e| e.to_string())?
-                .p2p()
-                .build()
-                .await
-                .map_err(|e| e.to_string())?;
-            let reg = register_layout(&conn).await.map_err(|e| e.to_string())?;
+                .p2p();
+            let (builder, reg) = serve_layout(builder).map_err(|e| e.to_string())?;
+            let conn = builder.build().await.map_err(|e| e.to_string())?;
             Ok::<_, String>((conn, reg))
         })
     });
